@@ -38,6 +38,8 @@ def source_shapes(src_text):
     plain, _q = tables.enum_tables()
     logic_names = set().union(*[set(m) for m in plain.values()]) if plain else set()
     for f in fdefs:
+        if any(isinstance(x, ast.FunctionDef) and x is not f for x in ast.walk(f)):
+            shapes.add("D36-nested-function-definition")
         if f.name in logic_names:
             shapes.add("D28-function-named-like-logic-type")
         rets = [x for x in ast.walk(f) if isinstance(x, ast.Return) and x.value is not None]
@@ -76,6 +78,13 @@ def source_shapes(src_text):
                                 shapes.add("D20-call-or-loop-in-list-loop-body")
             if isinstance(n, ast.Assign) and isinstance(n.value, ast.Name) and len(n.targets) == 1 and isinstance(n.targets[0], ast.Name):
                 srcname = n.value.id
+                tgt = n.targets[0].id
+                reads = {}
+                for x in body_nodes:
+                    if isinstance(x, ast.Name) and isinstance(x.ctx, ast.Load):
+                        reads[x.id] = max(reads.get(x.id, 0), x.lineno)
+                if len(assigned.get(tgt, [])) == 1 and reads.get(tgt, 0) > reads.get(srcname, 0):
+                    shapes.add("D37-bare-copy-outlives-its-source")
                 if len(assigned.get(srcname, [])) > 1 or any(isinstance(a, ast.AugAssign) for a in assigned.get(srcname, [])):
                     shapes.add("D5-bare-copy-of-rewritten-variable")
             if isinstance(n, ast.UnaryOp) and isinstance(n.op, ast.Invert):
@@ -92,6 +101,11 @@ def source_shapes(src_text):
 
 
 # ---------------------------------------------------------------- attribution
+
+def clobber_shape_suffix(srcs):
+    shapes = sorted(set().union(*[source_shapes(t) for t in srcs.values()]))
+    return "".join(":" + s for s in shapes if s.startswith(("D36", "D37", "D5-")))
+
 
 def shape_suffix(srcs):
     shapes = sorted(set().union(*[source_shapes(t) for t in srcs.values()]))
@@ -187,6 +201,9 @@ def diff_run(srcs, opts, env_seed, pool, K, res=None, src_steps=20000):
     out = {"kind": kind, "detail": detail, "res": res, "it": it, "m": m}
     if kind == "mismatch":
         sig, extra = attribute(res, env_seed, pool, budget, K)
+        # clobbers are qualified by the shapes of the open aliasing / nested-function findings
+        if sig and sig.startswith("C04:clobber"):
+            sig += clobber_shape_suffix(srcs)
         out["root"] = sig
         out["root_detail"] = extra
     return out
